@@ -360,6 +360,11 @@ class Resolver:
                     for sc in repo.subclasses(t):
                         if f.attr in sc.methods:
                             out.append(('func', sc.methods[f.attr]))
+                        else:
+                            # a subclass may inherit the method from another base (mix-in): class S(Reader, Scraper)
+                            m2 = repo.find_method(sc, f.attr)
+                            if m2 is not None and m2 is not m:
+                                out.append(('func', m2))
                 else:
                     exts = []
                     for c in repo.mro(t):
@@ -373,6 +378,15 @@ class Resolver:
                 cands = self.method_names().get(f.attr, [])
                 if 1 <= len(cands) <= 3 and not _is_common_method(f.attr):
                     return [('func-name', c) for c in cands]
+                # class-hierarchy fallback: more definitions, but all in one hierarchy whose root declares the method
+                # (`for scraper in self._document_scrapers: scraper.scrape(...)` -> every BaseScraper.scrape override)
+                if len(cands) > 3 and not _is_common_method(f.attr) and not f.attr.startswith('__'):
+                    owners = [c.cls for c in cands if c.cls is not None]
+                    if len(owners) == len(cands):
+                        for root in owners:
+                            subs = set(id(x) for x in repo.subclasses(root))
+                            if all(o is root or id(o) in subs for o in owners):
+                                return [('func-name', c) for c in cands]
             if typed_unknown:
                 return _uniq(typed_unknown)
             return [('unknown', ast.unparse(f)[:80])]
